@@ -877,6 +877,32 @@ def n30_alt(pieces, file, applied):
         raise ExtractError("N30: no `alt((..)).parse_next(input)` found")
 
 
+def n31_separated(pieces, file, applied):
+    """N31: winnow `separated(0.., P, (ws, literal(","), ws)).parse_next(input)?` -> the loop of winnow 0.7.13's
+    `separated0_` (combinator/multi.rs), transcribed (ASSUMED to be what the combinator does): parse one element; on a
+    backtrack error rewind and return what was collected; then repeatedly remember the position, parse the separator
+    (the tuple is a sequence: ws, the literal, ws), on a backtrack error rewind and stop; check that the separator
+    consumed something (winnow's infinite-loop assertion - a leaf whose precondition is `false`, so it is an obligation);
+    parse the next element, on a backtrack error rewind to BEFORE the separator and stop.  Non-backtrack errors are
+    returned.  `P` is a parser fn name."""
+    pat = 'separated(0.., $#P, (ws, literal(","), ws)).parse_next(input)?'
+    rep = ('{ let mut sep_acc = Vec::new(); let sep_lit: &[u8] = &[0x2cu8]; let sep_start = *input; '
+           'let sep_first = $P(input); '
+           'let mut sep_more: bool = match sep_first { Ok(o) => { sep_acc.push(o); true } '
+           'Err(ErrMode::Backtrack(_)) => { *input = sep_start; false } Err(e) => { return Err(e); } }; '
+           'while sep_more { let sep_start = *input; let sep_len = input.len(); '
+           'let sep_r = match ws(input) { Err(e) => Err(e), Ok(_) => match expect_lit_bytes(input, sep_lit) { Err(e) => Err(e), Ok(_) => ws(input) } }; '
+           'match sep_r { Err(ErrMode::Backtrack(_)) => { *input = sep_start; sep_more = false; } Err(e) => { return Err(e); } '
+           'Ok(_) => { if input.len() == sep_len { separated_must_consume(); } '
+           'let sep_next = $P(input); '
+           'match sep_next { Ok(o) => { sep_acc.push(o); } Err(ErrMode::Backtrack(_)) => { *input = sep_start; sep_more = false; } Err(e) => { return Err(e); } } } } } '
+           'sep_acc }')
+    ms = find_pattern(pieces, pat)
+    if len(ms) != 1:
+        raise ExtractError(f"N31: `separated(0.., P, (ws, literal(\",\"), ws)).parse_next(input)?` occurs {len(ms)} times, expected 1")
+    apply_rewrite(pieces, "N31", pat, rep, "1", file, applied)
+
+
 def n32_canonical_loops(pieces, file, applied):
     """N32: `loop { if C { break; } REST }` -> `while !(C) { REST }` (the `if` is the first statement of the body, has no
     `else`, and contains nothing but `break;`).  The two forms are the same program; loop invariants in the templates are
@@ -1483,6 +1509,8 @@ class Generator:
                             cur = None
                         elif d == "n30":
                             opts["n30"] = True
+                        elif d == "n31":
+                            opts["n31"] = True
                             cur = None
                         elif d.startswith("params ") or d == "params":
                             opts["params"] = d.split()[1:]
@@ -1644,6 +1672,8 @@ class Generator:
             n29_select_biased(pieces, file, self.applied)
         if opts.get("n30"):
             n30_alt(pieces, file, self.applied)
+        if opts.get("n31"):
+            n31_separated(pieces, file, self.applied)
         for (rule, pat, rep, count) in opts["rewrites"]:
             apply_rewrite(pieces, rule, pat, rep, count, file, self.applied)
         if opts.get("n5"):
